@@ -4,6 +4,7 @@ package vh
 
 import (
 	"fmt"
+	"github.com/f1bonacc1/process-compose/src/vrt"
 	"math"
 	"strings"
 
@@ -146,6 +147,8 @@ type c18Follower struct {
 }
 
 func (f *c18Follower) WriteString(l string) (int, error) {
+	// a follower is foreign code: the writer that calls it may be pre-empted right before the call
+	vrt.Yield("follower-recv")
 	f.stream = append(f.stream, l)
 	return len(l), nil
 }
